@@ -199,6 +199,7 @@ def PopNewSpec (cap : Nat) (held : List Key) (s : Store τ) : Except SFault (Opt
       ∧ ∃ x rest, s.newRing.items = (k, x) :: rest ∧ s'.newRing.items = rest
           ∧ s'.arena.slots[k.index]? = some ⟨some x, k.generation⟩
           ∧ (∀ j, j ≠ k.index → s'.arena.slots[j]? = s.arena.slots[j]?)
+          ∧ s.arena.slots[k.index]? = some ⟨none, k.generation⟩
 
 theorem wf_popNewInsert {cap : Nat} {held : List Key} {s : Store τ} (h : WF cap held s) :
     PopNewSpec cap held s s.popNewInsert := by
@@ -225,6 +226,8 @@ theorem wf_popNewInsert {cap : Nat} {held : List Key} {s : Store τ} (h : WF cap
       simp [hsl, hcsl, Controller.generation] at hg2 hgen; omega
     simp only [popNewInsert, Ring.pop, hit, Arena.insertWithKey, hsl, hslg, hdata, PopNewSpec]
     simp
+    have hsl0 : sl = ⟨none, k.generation⟩ := by cases sl; simp_all
+    have hsl1 : s.arena.slots[k.index]? = some ⟨none, k.generation⟩ := by rw [hsl, hsl0]
     refine ⟨⟨?_, ?_, ?_, ?_, ?_, ?_, ?_, ?_, ?_, ?_, ?_, ?_, ?_, ?_⟩, ?_, ?_⟩
     all_goals (simp only [Controller.len, Controller.generation, ownIdx, List.length_cons, List.length_append, List.length_map, List.mem_append, List.mem_cons, List.mem_map, List.length_set, hit, List.map_cons, List.nodup_append, List.nodup_cons] at *)
     all_goals first | assumption | omega | grind
